@@ -12,7 +12,12 @@ Block shuffling (2-D; a 1-D array is the case of one row and block height 1): pa
 the block with edge values (mode `pad`) or switch the mask off beyond the last whole block (mode
 `inplace`), block view, mask reduction (`all` / `any`), the flat indices of the selected blocks,
 `blocks[idx] = blocks[nidx]` where `nidx` is what `numpy.random.permutation(idx)` returned, crop.
-The model is parameterised by `nidx`.
+The model is parameterised by `nidx`.  `PewModel/ColocalNd.lean` is the same mechanism for arrays of any dimension
+(the code is dimension-generic); the 2-D model here is proved to be its instance on shapes `[n0, n1]`.
+
+Memory: `shuffleCall` is `shuffle_blocks` as a call - return value plus the caller's `x` and `mask` arrays
+afterwards - with the `mask = mask.copy()` statement and the per-axis trim writes explicit (`Mem`, `inplaceMask`);
+the loop of `pearsonr_probablity` (`probRun`) threads the mask array and the `y.copy()` buffer through the rounds.
 -/
 namespace Pew.Colocal
 
